@@ -7,8 +7,8 @@ Require Import Cert HP1 Cao1 Cao3 Score1 Spec Valid Quality Consts.
 Import ListNotations.
 Open Scope Z_scope.
 
-(* INSTRUCTOR_SCORE = WEIGHT_OFFSET as u32 (caobab.rs): an externally assigned instructor adds WEIGHT_OFFSET - INSTRUCTOR_SCORE = 0 *)
-Definition INSTRUCTOR_SCORE : Z := WEIGHT_OFFSET.
+(* INSTRUCTOR_SCORE = WEIGHT_OFFSET as u32 (caobab.rs; Consts.INSTRUCTOR_SCORE is generated from that line): an externally assigned
+   instructor adds WEIGHT_OFFSET - INSTRUCTOR_SCORE = 0 *)
 Definition comb_num (n_real score ni : Z) (pens : list Z) : Z :=
   n_real * WEIGHT_OFFSET - score + ni * (WEIGHT_OFFSET - INSTRUCTOR_SCORE) + sumZ pens.
 Definition comb_den (n_real ni : Z) (pens : list Z) : Z := n_real + Z.of_nat (length pens) + ni.
@@ -24,7 +24,7 @@ Theorem comb_num_sum a ni pens :
   comb_num (Z.of_nat (n_real parts)) (score_of courses parts a) ni pens =
   sumZ (map (penalty_of courses parts a) rated) + sumZ pens.
 Proof.
-  unfold comb_num, INSTRUCTOR_SCORE. pose proof (quality_num_sum courses parts a) as H. unfold quality_num in H. unfold rated.
+  unfold comb_num, INSTRUCTOR_SCORE. rewrite Z.sub_diag, Z.mul_0_r. pose proof (quality_num_sum courses parts a) as H. unfold quality_num in H. unfold rated.
   rewrite <- H. lia.
 Qed.
 (* denominator: the number of all rated people *)
@@ -36,10 +36,32 @@ Proof. reflexivity. Qed.
 Theorem comb_none a :
   comb_num (Z.of_nat (n_real parts)) (score_of courses parts a) 0 [] = quality_num parts (score_of courses parts a) /\
   comb_den (Z.of_nat (n_real parts)) 0 [] = Z.of_nat (n_real parts).
-Proof. unfold comb_num, comb_den, quality_num, INSTRUCTOR_SCORE. cbn [sumZ fold_right length]. split; lia. Qed.
+Proof. unfold comb_num, comb_den, quality_num, INSTRUCTOR_SCORE. rewrite Z.sub_diag. cbn [sumZ fold_right length]. split; lia. Qed.
 
 (* every penalty counted for an optimised participant lies in [0, WEIGHT_OFFSET], so the numerator is non-negative (the `as usize`
    subtraction of the implementation cannot wrap) when the external penalties are non-negative *)
 Lemma sumZ_nonneg l : (forall z, In z l -> 0 <= z) -> 0 <= sumZ l.
 Proof. induction l as [|x t IH]; intros H; cbn [sumZ fold_right]; [lia|]. pose proof (H x (or_introl eq_refl)). assert (0 <= sumZ t) by (apply IH; intros; apply H; right; assumption). unfold sumZ in *. lia. Qed.
+
+(* every rated participant's penalty is between 0 and WEIGHT_OFFSET, so the numerators are non-negative: the subtraction
+   `n * WEIGHT_OFFSET as usize - score as usize` of solution_quality / combined_quality cannot wrap *)
+Lemma contribution_le a p : Valid courses parts -> (0 <= contribution courses parts a p <= WEIGHT_OFFSET)%Z.
+Proof.
+  intros V. unfold contribution. destruct (instr_only p); [unfold WEIGHT_OFFSET; lia|].
+  destruct (getO a p) as [c|]; [|unfold WEIGHT_OFFSET; lia]. destruct (instructs courses p c); [unfold WEIGHT_OFFSET; lia|].
+  destruct (cw_cases parts p c) as [->|(ch & Hin & ->)]; [unfold WEIGHT_OFFSET; lia|].
+  destruct (v_choice _ _ V p ch Hin) as [_ [H0 H1]]. pose proof (v_pen _ _ V) as Hp. destruct (v_real _ _ V) as (q & Hq & _).
+  assert (1 <= Z.of_nat np) by lia. nia.
+Qed.
+Theorem quality_num_nonneg a : Valid courses parts -> 0 <= quality_num parts (score_of courses parts a).
+Proof.
+  intros V. rewrite quality_num_sum. apply sumZ_nonneg. intros z Hz. apply in_map_iff in Hz. destruct Hz as (p & <- & _).
+  unfold penalty_of. pose proof (contribution_le a p V). lia.
+Qed.
+Theorem comb_num_nonneg a ni pens : Valid courses parts -> (forall z, In z pens -> 0 <= z) ->
+  0 <= comb_num (Z.of_nat (n_real parts)) (score_of courses parts a) ni pens.
+Proof.
+  intros V Hp. rewrite comb_num_sum. pose proof (quality_num_nonneg a V) as H. rewrite quality_num_sum in H.
+  pose proof (sumZ_nonneg pens Hp). unfold rated. lia.
+Qed.
 End C.
